@@ -313,6 +313,8 @@ def run(tier: str, seed: int) -> CheckResult:
     for h in histories(2, False):
         if any(a[0] in ('status', 'addfin', 'delfin') for a in h):
             hist.append(build(h, False, 6.0, False, other_kind_handlers=other, delays=False, early_user=False, time_dev=False))
+    # the same classification for a ReplicaSet owned by a Deployment (kopf keeps its last-handled state under another annotation name there)
+    hist += [build(h, False, 6.0, pre, rs=True, delays=False, early_user=False, time_dev=False) for pre in (False, True) for h in histories(2, False)]
     timing = [build(h, bare, 2.0, pre, kills=True) for bare in (True, False) for pre in (False, True) for h in histories(1 if tier == 'quick' else 2, bare)]
     if tier == 'quick':
         groups = [('histories', hist, 0, 60.0), ('timing+kills', timing, 1, 40.0)]
